@@ -1189,7 +1189,7 @@ class Sum(Expression):
                 keep = ranges - set(children)
                 return Sum.safe(
                     expression=One(),
-                    ranges=frozenset(v for k, v in children.items() if k in keep),
+                    ranges=keep,
                 )
             elif ranges < set(children):
                 keep = set(children) - ranges
